@@ -37,3 +37,18 @@ func ParkedIn(fn string, states ...string) int {
 	}
 	return cnt
 }
+
+// GoID returns the current goroutine's id (parsed from runtime.Stack; used only
+// to attribute hook events to the harness goroutine that caused them).
+func GoID() int64 {
+	var buf [64]byte
+	n := runtime.Stack(buf[:], false)
+	// "goroutine 123 [running]:"
+	s := string(buf[:n])
+	s = strings.TrimPrefix(s, "goroutine ")
+	var id int64
+	for i := 0; i < len(s) && s[i] >= '0' && s[i] <= '9'; i++ {
+		id = id*10 + int64(s[i]-'0')
+	}
+	return id
+}
